@@ -8,9 +8,9 @@
    [flush] = what RequestHandler.flush puts on the wire; [parse_cookie] /
    [request_cookies] = Tornado's request-side cookie parser; [browser_name] /
    [browser_attrs] / [nv_part] / [cookie_header] = an RFC 6265-style user agent. *)
-From Coq Require Import List NArith ZArith.
+From Coq Require Import List NArith ZArith Bool.
 Import ListNotations.
-From TV Require Import C25.Model C25.Run C25.Proofs3 C25.Proofs4.
+From TV Require Import C25.Model C25.Run C25.Proofs2 C25.Proofs3 C25.Proofs4.
 
 (* 1. A call that returns normally emits a header whose name=value part is read
       back by Tornado's cookie parser as exactly that name and value: all names,
@@ -38,18 +38,48 @@ Proof. exact signed_cookie_reads_back. Qed.
 Print Assumptions C25_signed_cookie_reads_back.
 
 (* 2. ... and a user agent reads exactly the requested name and exactly the
-      requested attributes, in Morsel order, nothing injected, nothing dropped
-      (expires_ok: the opaque expiry text has no ";" -- format_timestamp's
-      output; checked on every correspondence case). *)
+      requested attributes, in Morsel order, nothing injected, nothing dropped.
+      (The expiry text is no longer an assumption: format_timestamp is modelled,
+      see C25_expiry_text_is_attribute_safe.) *)
 Theorem C25_attributes_exact :
-  forall c, accepted c = true -> expires_ok c = true ->
+  forall c, accepted c = true ->
     browser_name (output_string c) = c_name c /\
     browser_attrs (output_string c) = requested c.
 Proof. exact attributes_exact. Qed.
 Print Assumptions C25_attributes_exact.
 Example C25_attributes_exact_ex :
-  accepted ex_full = true /\ expires_ok ex_full = true /\ length (requested ex_full) = 7%nat.
+  accepted ex_full = true /\ length (requested ex_full) = 7%nat.
 Proof. vm_compute. repeat split; reflexivity. Qed.
+
+(* httputil.format_timestamp of every timestamp is free of ";" and of anything a
+   header refuses. *)
+Theorem C25_expiry_text_is_attribute_safe :
+  forall t, forallb (fun x => negb (N.eqb x 59) && header_char_ok x) (format_ts t) = true.
+Proof. exact format_ts_ok. Qed.
+Print Assumptions C25_expiry_text_is_attribute_safe.
+Example C25_format_ts_leap_day :
+  format_ts 951782400%Z =
+  [84;117;101;44;32;50;57;32;70;101;98;32;50;48;48;48;32;48;48;58;48;48;58;48;48;32;71;77;84]%N.
+Proof. vm_compute. reflexivity. Qed.   (* "Tue, 29 Feb 2000 00:00:00 GMT" *)
+
+(* An expiry outside years 1..9999 makes the call raise before the jar is touched;
+   accepted calls have a representable expiry. *)
+Theorem C25_unrepresentable_expiry_raises :
+  forall c, expiry_check c <> Ok -> accepted c = false.
+Proof. exact unrepresentable_expiry_rejected. Qed.
+Print Assumptions C25_unrepresentable_expiry_raises.
+
+Theorem C25_accepted_expiry_is_representable :
+  forall c t, accepted c = true -> c_expires c = Some t -> t <> 0%Z ->
+    (-62135596800 <= t < 253402300800)%Z.
+Proof. exact accepted_expiry_in_range. Qed.
+Print Assumptions C25_accepted_expiry_is_representable.
+
+(* The Max-Age text is the decimal numeral of the requested integer. *)
+Theorem C25_max_age_text_denotes_the_number :
+  forall z, undec_Z (dec_Z z) = z.
+Proof. exact undec_Z_dec_Z. Qed.
+Print Assumptions C25_max_age_text_denotes_the_number.
 
 (* 3. A separator, blank or control character in the name, domain, path or
       samesite makes the call raise. *)
@@ -72,7 +102,7 @@ Print Assumptions C25_returned_normally_is_sent.
 (* ... and calls are not refused needlessly: arguments that pass the checks and
    are Latin-1 are accepted. *)
 Theorem C25_latin1_calls_are_accepted :
-  forall c, validate c = Ok -> call_latin1 c = true -> expires_ok c = true -> accepted c = true.
+  forall c, validate c = Ok -> call_latin1 c = true -> accepted c = true.
 Proof. exact latin1_call_accepted. Qed.
 Print Assumptions C25_latin1_calls_are_accepted.
 
@@ -106,10 +136,34 @@ Theorem C25_next_request_sees_exactly_the_jar :
 Proof. exact next_request_cookies. Qed.
 Print Assumptions C25_next_request_sees_exactly_the_jar.
 
-(* 7. The model satisfies the checker that is applied to the implementation. *)
+(* 7. However the request ends -- the handler returns, raises Finish, raises
+      HTTPError(code), raises anything else (500), calls send_error(code) or
+      redirect() -- the response that is sent has the status of that ending and
+      carries the Set-Cookie header of every setting in the jar: clear() (called
+      by send_error) does not discard cookies that set_cookie accepted.
+      Scope made explicit: the response head has not been flushed yet
+      (h_written = false); after flush() no header API can take effect. *)
+Theorem C25_any_ending_sends_the_jar :
+  forall e h, h_written h = false ->
+    end_request e h = Some (status_after e h, flush (h_jar h)).
+Proof. exact end_request_keeps_jar. Qed.
+Print Assumptions C25_any_ending_sends_the_jar.
+Example C25_any_ending_sends_the_jar_ex :
+  h_written (mkH 200 true false [w_a]) = false /\
+  end_request (EndHTTPError 403) (mkH 200 true false [w_a]) = Some (403%N, Some [output_string w_a]).
+Proof. vm_compute. split; reflexivity. Qed.
+
+Theorem C25_error_response_keeps_cookies :
+  forall ops e,
+    run_request ops e
+    = (fst (run_ops ops), Some (status_of e, Some (map output_string (snd (run_ops ops))))).
+Proof. exact ending_keeps_cookies. Qed.
+Print Assumptions C25_error_response_keeps_cookies.
+
+(* 8. The model satisfies the checker that is applied to the implementation:
+      every call sequence, every ending, no hypothesis. *)
 Theorem C25_model_satisfies_checker :
-  forall ops, forallb expires_ok (filter accepted (map lower ops)) = true ->
-    check_case ops (run_case ops) = true.
+  forall ops e, check_case (ops, e) (run_case (ops, e)) = true.
 Proof. exact checker_accepts_model. Qed.
 Print Assumptions C25_model_satisfies_checker.
 
